@@ -54,7 +54,8 @@ def required(tier):
     cl += [f'layout:{x}' for x in ('single', 'assoc1', 'assoc2', 'mapped', 'mem-save')]
     cl += ['phase:same-session-evicted', 'phase:reopen-read', 'phase:reopen-append',
            'phase:after-sync', 'across:subset-later', 'across:uniform', 'phase:append-one-more',
-           'field-set-order:shuffled', 'field-set:defined-again-in-another-field-order']
+           'field-set-order:shuffled', 'field-set:defined-again-in-another-field-order',
+           'trajectory:without-points']
     return {'classes': cl, 'counters': {'trajectories_compared': 300}, 'evaluations': 300}
 
 
@@ -320,6 +321,86 @@ def _mechanism(diffs):
     return 'value changed on read-back'
 
 
+KF_ZERO = 'C03-zero-point-trajectory-not-readable-from-file'
+
+
+def zero_point_probe(rng, workdir: Path, rec, k):
+    """A trajectory without points (a flight that produced no way-point; ``Trajectory(0)`` is
+    accepted by ``add``).  While it is held in memory it must come back equal; read back from
+    the file it is the listed finding (the read path cannot tell "no points" from "unset")."""
+    import numpy as np
+
+    from AEIC.trajectories import TrajectoryStore
+    from vlib import trajgen
+    from vlib.storeops import Mismatch as M
+
+    nprng = np.random.default_rng(rng.getrandbits(32))
+    pos = rng.randrange(3)
+    trajs = [trajgen.make_base_traj(nprng, 0 if j == pos else rng.randint(1, 5), k * 100 + 50 + j)
+             for j in range(3)]
+    snaps = [trajgen.snapshot(t) for t in trajs]
+    case = {'zero_point_trajectory_at_index': pos}
+
+    def read_all(st, where, from_file):
+        for i, sn in enumerate(snaps):
+            rec.ev()
+            try:
+                got = st[i]
+            except (AssertionError, TypeError) as e:
+                # (TypeError: the same failure in an interpreter with assertions stripped)
+                if from_file and i == pos and (isinstance(e, AssertionError)
+                                               or not __debug__):
+                    rec.finding(KF_ZERO, 'a trajectory without points is accepted by add() but '
+                                'cannot be read back from the file (AssertionError in '
+                                '_load_trajectory: the number of points cannot be determined)',
+                                {'where': where, **case}, {'k': k, **case})
+                    continue
+                raise M('reading a stored trajectory raised',
+                        {'index': i, 'where': where, 'error': f'{type(e).__name__}: {e}', **case})
+            except Exception as e:  # noqa: BLE001
+                raise M('reading a stored trajectory raised',
+                        {'index': i, 'where': where,
+                         'error': f'{type(e).__name__}: {str(e)[:200]}', **case})
+            diffs = [x for x in trajgen.compare(sn, got)
+                     if not x.startswith(trajgen.UNSET_STR_MARK)]
+            if diffs:
+                raise M('a stored trajectory reads back with altered contents',
+                        {'index': i, 'where': where, 'diffs': diffs[:4], **case})
+    # in memory
+    st = TrajectoryStore.create(cache_size_mb=64)
+    try:
+        for j, t in enumerate(trajs):
+            if st.add(t) != j:
+                raise M('add returned wrong index', {'expected': j, **case})
+        if len(st) != 3:
+            raise M('len(store) differs from number of successful additions', case)
+        read_all(st, 'in-memory store', False)
+        got = [trajgen.fingerprint(t) for t in st]
+        if got != [trajgen.fingerprint(s_) for s_ in snaps]:
+            raise M('iteration order/content differs from insertion order',
+                    {'got': got, **case})
+    finally:
+        st.close()
+    # file-backed: the creating session holds everything in its cache
+    p = workdir / f'zp{rng.getrandbits(40):x}.nc'
+    st = TrajectoryStore.create(base_file=p, cache_size_mb=64)
+    try:
+        for t in trajs:
+            st.add(t)
+        read_all(st, 'creating session (cached)', False)
+    finally:
+        st.close()
+    st = TrajectoryStore.open(base_file=p)
+    try:
+        if len(st) != 3:
+            raise M('reopened length differs', {'len': len(st), **case})
+        read_all(st, 'reopened for reading', True)
+    finally:
+        st.close()
+    p.unlink(missing_ok=True)
+    rec.cls('trajectory:without-points')
+
+
 def run_shard(spec, rec):
     from vlib import failpoints
     from vlib.storeops import Mismatch
@@ -337,6 +418,8 @@ def run_shard(spec, rec):
                     rec.cls('clock:whole-second-creation-stamp')
                 if k < 2:
                     rec.sample(c)
+                if k % 5 == 2:
+                    zero_point_probe(random.Random(f"{spec['seed']}-{k}-zp"), workdir, rec, k)
             except Mismatch as m:
                 rec.violation(m.mechanism, m.detail,
                               {'spec': {'seed': spec['seed'], 'n': spec['n']}, 'k': k})
